@@ -406,6 +406,31 @@ func (ludp) Gen(rng *rand.Rand, tier string) []Case {
 			add("ser:" + hx(q) + "," + lnFCD[rng.Intn(len(lnFCD))] + "," + hx(payloads()) + "," + udpPH(rng, true))
 		}
 	}
+	// payloads solved so that the one's complement sum is 0xffff (checksum computes to 0, emitted as
+	// 0xffff by the RFC 768 rule) or 0xfffe / 0x0001 (checksum 0x0001 / 0xfffe)
+	for i := 0; i < 8*scale; i++ {
+		for _, want := range []uint32{0xffff, 0xfffe, 0x0001} {
+			sp, dp := port(), port()
+			src, dst := lnRandBytes(rng, 4), lnRandBytes(rng, 4)
+			pl := lnRandBytes(rng, 2+2*rng.Intn(8))
+			pl[len(pl)-2], pl[len(pl)-1] = 0, 0
+			L := 8 + len(pl)
+			seg := append([]byte{byte(sp >> 8), byte(sp), byte(dp >> 8), byte(dp), byte(L >> 8), byte(L), 0, 0}, pl...)
+			var S uint32
+			for _, b := range [][]byte{src, dst, seg} {
+				for k := 0; k+1 < len(b); k += 2 {
+					S += uint32(b[k])<<8 | uint32(b[k+1])
+				}
+			}
+			S += 17 + uint32(L)
+			for S > 0xffff {
+				S = S>>16 + S&0xffff
+			}
+			x := (want + 0xffff - S) % 0xffff
+			pl[len(pl)-2], pl[len(pl)-1] = byte(x>>8), byte(x)
+			add("tag:csum-solved", fmt.Sprintf("new:%d.%d.0.0,11%d,%s,4:%s:%s", sp, dp, rng.Intn(3), hx(pl), hx(src), hx(dst)))
+		}
+	}
 	// payload sizes around the uint16 length boundary (jumbo rule over IPv6, wrap over IPv4)
 	sizes := []int{1472, 65526, 65527, 65528}
 	if tier == "thorough" {
